@@ -79,6 +79,18 @@ func (c *checkCtx) buildVHAs(name string, race bool) string {
 	if race {
 		args = append(args, "-race")
 	}
+	if alt := os.Getenv("VCHECK_REPO"); alt != "" {
+		// development only (running the checks against a scratch worktree that carries a seeded change while other
+		// checks use /repo): the registered commands never set it, so they always build from /repo's working tree.
+		mod := filepath.Join(c.work, "alt.mod")
+		src, _ := os.ReadFile(filepath.Join(root, "harness", "go.mod"))
+		sum, _ := os.ReadFile(filepath.Join(alt, "go.sum"))
+		if os.WriteFile(mod, []byte(strings.Replace(string(src), "=> /repo", "=> "+alt, 1)), 0o644) != nil ||
+			os.WriteFile(filepath.Join(c.work, "alt.sum"), sum, 0o644) != nil {
+			infra("cannot write %s", mod)
+		}
+		args = append(args, "-modfile", mod)
+	}
 	args = append(args, "-o", exe, "./cmd/vh")
 	cmd := exec.Command("go", args...)
 	cmd.Dir = filepath.Join(root, "harness")
@@ -626,8 +638,12 @@ func (c *checkCtx) writeEvidence() {
 		"violations":  len(c.violations),
 	}
 	b, _ := json.MarshalIndent(ev, "", " ")
-	_ = os.MkdirAll(filepath.Join(root, "evidence"), 0o755)
-	if err := os.WriteFile(filepath.Join(root, "evidence", c.id+".json"), append(b, '\n'), 0o644); err != nil {
+	evdir := filepath.Join(root, "evidence")
+	if os.Getenv("VCHECK_REPO") != "" {
+		evdir = filepath.Join(root, ".work", "evidence-alt")
+	}
+	_ = os.MkdirAll(evdir, 0o755)
+	if err := os.WriteFile(filepath.Join(evdir, c.id+".json"), append(b, '\n'), 0o644); err != nil {
 		infra("cannot write evidence: %v", err)
 	}
 }
